@@ -792,12 +792,12 @@ func main() {
 	rn := &runner{f: f}
 	exLen := f.N(3, 4)
 	ex := res.Tie("electric-exhaustive", "K2",
-		fmt.Sprintf("ALL operation sequences of length <= %d over a 37-operation alphabet (Model API and both servers; add/create/update with and without masks/delete with and without allow-missing/change/clear/set-active/find over mode ids a, b, c, one generated id, UpdateMode as an upsert (WithCreateIfAbsent, with and without a mask that leaves the id out) and DeleteMode with WithExpectedValue / WithExpectedCheck (stored and absent ids), UpdateMode with the caller's own code among its options (WithResetMask over other fields than id, WithExpectedCheck, InterceptBefore / InterceptAfter from a named family shared with the driver), and the placeholder active mode's own id — \"\" by default — for every Model-API operation that takes an id) on NewModel(), and all sequences of length <= %d from three configured initial states (WithInitialMode + WithInitialActiveMode: placeholder naming no mode / a copy of an initial mode / the id of a mode added later); after every step the result and the whole observable state (sorted modes, active mode, normal mode) and the events delivered to PullModes / PullActiveMode subscribers are compared with the Lean model; plus the construction itself for the accepted configurations and for three rejected ones (id configured twice, mode without id: panic in model and code); distinct = distinct (initial state, operation prefix)", exLen, exLen-1))
+		fmt.Sprintf("ALL operation sequences of length <= %d over a 37-operation alphabet (Model API and both servers; add/create/update with and without masks/delete with and without allow-missing/change/clear/set-active/find over mode ids a, b, c, one generated id, UpdateMode as an upsert (WithCreateIfAbsent, with and without a mask that leaves the id out) and DeleteMode with WithExpectedValue / WithExpectedCheck (stored and absent ids), UpdateMode with the caller's own code among its options (WithResetMask over other fields than id, WithExpectedCheck, InterceptBefore / InterceptAfter from a named family shared with the driver), and the placeholder active mode's own id — \"\" by default — for every Model-API operation that takes an id) on NewModel(), and all sequences of length <= %d from five configured initial states (WithInitialMode + WithInitialActiveMode: placeholder naming no mode / a copy of an initial mode / the id of a mode added later; WithModeOption(resource.WithInitialRecord(key, mode)): every record under its id / the normal mode a under the key c - the latter outside the theorems' hypothesis, tie to the keyed model only); after every step the result and the whole observable state (sorted modes, active mode, normal mode) and the events delivered to PullModes / PullActiveMode subscribers are compared with the Lean model; plus the construction itself for the accepted configurations and for three rejected ones (id configured twice, mode without id: panic in model and code); distinct = distinct (initial state, operation prefix)", exLen, exLen-1))
 	ex.Exhaustive = true
 	tie := res.Tie("electric-random", "K1",
 		"random operation sequences (length 1-40) from one PRNG, 40% of them from a random InitOk configuration (0-3 initial modes, placeholder active mode with id \"\"/fresh/existing/future), over 8 ids incl. ids the scripted RNG will generate plus \"\" and the placeholder's id as arguments, random masks (nil, empty, subsets of id/title/normal/start_time/description/voltage/segments, unknown path), Model-level write options on UpdateMode / DeleteMode (WithCreateIfAbsent, WithExpectAbsent, WithExpectedValue with blank / plausible / random values, WithExpectedCheck with four named checks on both; WithResetMask over random paths incl. an unknown one, WithExpectedCheck, InterceptBefore / InterceptAfter with the four tame named callbacks; in 1 of 8 sequences the LAST operation is an UpdateMode with exactly one option outside the theorems' hypothesis WOpts.Tame - reset mask naming id, a callback renaming the record or raising normal - plus ten fixed probes of that kind: the model follows the code there too, the record being stored under the call's key), rejected configurations (construction panics), both API levels, documented contract panics, id-generation retries and exhaustion; every step's result, whole observable state and stream events compared with the Lean model; distinct = distinct operation prefix")
 	rn.mon = res.Monitor("electric-invariants",
-		"after EVERY step of every sequence on the real model, with plain Go bookkeeping as oracle: I1 at most one normal mode; I2 a delete of the active id fails and keeps the mode, and a delete of the id under which the active mode was last selected never succeeds; I3 once changed the active id is in modes; clear selects the normal mode / NotFound; a successful switch to a different id stamps start_time = clock now; delete of an absent id = NotFound, or OK with allow-missing; a failed operation changes nothing; every listed mode is found by a lookup of the id it carries (C19/key/…); no panic other than the two documented contract panics; an UpdateMode whose options are outside WOpts.Tame is reported under a qualified operation name (update[reset-id], update[intercept-id], update[intercept-normal]); PullModes / PullActiveMode followed from the model's creation: every expected event arrives, the subscriber's folded view has at most one normal mode after every event and equals Modes() at every operation boundary, an active-mode event is the active mode and names a stored mode; non-trivial = more than one step")
+		"after EVERY step of every sequence on the real model, with plain Go bookkeeping as oracle: I1 at most one normal mode; I2 a delete of the active id fails and keeps the mode, and a delete of the id under which the active mode was last selected never succeeds; I3 once changed the active id is in modes; clear selects the normal mode / NotFound; a successful switch to a different id stamps start_time = clock now; delete of an absent id = NotFound, or OK with allow-missing; a failed operation changes nothing; every listed mode is found by a lookup of the id it carries (C19/key/…); no panic other than the two documented contract panics; an UpdateMode whose options are outside WOpts.Tame is reported under a qualified operation name (update[reset-id], update[intercept-id], update[intercept-normal]); PullModes / PullActiveMode followed from the model's creation: every expected event arrives, the subscriber's folded view has at most one normal mode after every event and equals Modes() at every operation boundary, an active-mode event is the active mode and names a stored mode; a second subscriber joins both streams half way through every sequence without updates_only: it is seeded with one ADD per stored mode in listing order and with the active mode, then is sent the same PullModes events and every changed active mode (C19/pull/late-…); after a successful UpdateMode outside WOpts.Tame, and for configurations with a record under a foreign key, the run feeds the tie only; non-trivial = more than one step")
 	stress := res.Monitor("electric-stress",
 		"2-4 goroutines issue 5-24 random operations each on one shared model (Model API and servers mixed); I1 and I3 evaluated at quiescence, no panic; one evaluation = one round")
 	k4 := res.Tie("electric-forced-overlap", "K4",
